@@ -104,6 +104,7 @@ class GValid:
                 elided = False
                 if not cx.is_start and rng.random() < cfg["p_elide"]:
                     cx.elide_mode = rng.choice(["uncond", "cond", "cond"])
+                    cx.elide_left = rng.choice([1, 1, 2])
                     elided = cx.elide_mode == "uncond"
                 rx = self._regex(cx, cfg["max_depth"], top=True)
                 if cx.elide_mode == "cond" and "elide_atom" not in cx.features:
@@ -226,8 +227,12 @@ class GValid:
         if rng.random() < cfg["p_rename"] * 0.4 and not cx.is_start:
             out.append(rename(rng.choice(self.node_names + [cx.rule])))
             cx.features.add("rename")
-        if cx.elide_mode == "cond" and rng.random() < 0.5 and not getattr(cx, "in_left_branch", False):
+        if (cx.elide_mode == "cond" and getattr(cx, "elide_left", 2) > 0 and rng.random() < 0.3
+                and not getattr(cx, "in_left_branch", False)):
+            # few `^` per rule, so that one of them is often the only one and sits inside a loop / option / branch:
+            # that is where conditional elision differs from unconditional
             out.append(elide())
+            cx.elide_left = getattr(cx, "elide_left", 2) - 1
             cx.features.add("elide_atom")
         if (rng.random() < cfg["p_return"] * 0.3 and not cx.is_start and not cx.in_choice and not cx.choice_safe_rule):
             # `&` in a rule shared with an ordered choice: bucket F18
